@@ -2,8 +2,10 @@ import warnings
 warnings.simplefilter("ignore", SyntaxWarning)
 import argparse
 import importlib
+import json
 import os
 import sys
+import traceback
 
 sys.path.insert(0, os.path.dirname(os.path.abspath(__file__)))
 
@@ -11,12 +13,37 @@ sys.path.insert(0, os.path.dirname(os.path.abspath(__file__)))
 def main():
     ap = argparse.ArgumentParser()
     ap.add_argument("prop")
-    ap.add_argument("--tier", default=os.environ.get("VERIF_TIER", "quick"), choices=["quick", "thorough"])
+    ap.add_argument("--tier", default=os.environ.get("VERIF_TIER", "quick") or "quick", choices=["quick", "thorough"])
     ap.add_argument("--replay", default=None)
     a = ap.parse_args()
     seed = int(os.environ.get("VERIF_SEED", "1") or 1)
-    mod = importlib.import_module(a.prop.lower())
-    sys.exit(mod.run(a.tier, seed, a.replay))
+    if a.replay:
+        # a replay file records the failing case; re-running the check with its seed and tier re-derives it
+        try:
+            rec = json.load(open(a.replay))
+            seed = int(rec.get("seed", seed))
+            a.tier = rec.get("tier", a.tier)
+            print(f"replaying {a.replay}: {rec.get('what', '')[:300]}")
+        except Exception as ex:
+            print(f"cannot read replay file: {ex}")
+    try:
+        mod = importlib.import_module(a.prop.lower())
+        sys.exit(mod.run(a.tier, seed, a.replay))
+    except SystemExit:
+        raise
+    except BaseException:
+        # the harness itself failed against this tree (import error, changed signature, ...): the property is no
+        # longer shown to hold; name what no longer checks
+        tb = traceback.format_exc()
+        verif = os.path.dirname(os.path.dirname(os.path.abspath(__file__)))
+        os.makedirs(os.path.join(verif, "replays"), exist_ok=True)
+        path = os.path.join(verif, "replays", f"{a.prop}-harness-failure.json")
+        with open(path, "w") as f:
+            json.dump({"property": a.prop, "what": "the check could not run its correspondence against this tree",
+                       "broken": ["harness/correspondence for " + a.prop], "traceback": tb[-3000:], "seed": seed, "tier": a.tier}, f, indent=1)
+        print(tb[-1500:])
+        print(f"VIOLATION property={a.prop} replay={path} no-failing-input-found")
+        sys.exit(1)
 
 
 if __name__ == "__main__":
